@@ -799,6 +799,18 @@ def check_views(R, prog, cname, spec, ci, roles):
                 else:
                     R.bad(F("OWN", fi, "BipartiteGraph.%s leaks its row" % mname,
                             "the neighbour list handed out must be a copy, otherwise callers can mutate the representation"))
+    # a view must not hand out the row object itself (callers could then modify the representation)
+    if cname in ("Graph", "DirectedGraph"):
+        for mname in {"Graph": ["neighbors"], "DirectedGraph": ["predecessors", "successors"]}[cname]:
+            fi = meth(mname)
+            leaks = [n for n in walk_shallow(fi.node) if isinstance(n, ast.Return) and n.value is not None and
+                     isinstance(n.value, ast.Subscript) and not isinstance(n.value.slice, ast.Slice) and self_field(n.value.value) in spec["rows"]]
+            if leaks:
+                R.bad(F("OWN", fi, "%s.%s leaks its row" % (cname, mname),
+                        "the view returns the adjacency row object itself: a caller that extends or sorts it corrupts the graph; yield "
+                        "from it or return a copy", leaks[0]))
+            else:
+                R.ok("OWN", "%s.%s does not hand out the row object" % (cname, mname), fi.key)
     # range validation of vertex argument in neighbour views
     views = {"Graph": ["neighbors", "degree"],
              "DirectedGraph": ["predecessors", "successors", "in_degree", "out_degree"],
